@@ -700,6 +700,7 @@ class ParserElement(ABC):
         """
         if list(fns) == [None]:
             self.parseAction.clear()
+            self.callDuringTry = False
             return self
 
         if not all(callable(fn) for fn in fns):
